@@ -52,7 +52,7 @@ def run_harnesses(scratch, package, harnesses, timeout_s, jobs, log, extra=None)
         raise Undecided("kani produced no JSON result (rc=%s, timed_out=%s)\n%s" % (rc, timed_out, out[-2000:]))
     solver = {}
     for c in data.get("cbmc", []):
-        st = c.get("cbmc_stats", {})
+        st = c.get("cbmc_stats") or {}
         solver[c["harness_id"]] = st.get("runtime_decision_procedure_s", 0.0) + st.get("runtime_symex_s", 0.0)
     stubs = re.findall(r"- Stub: (\S+)", out)
     by_id = {r["harness_id"]: r for r in data.get("verification_results", {}).get("results", [])}
